@@ -512,6 +512,40 @@ impl Rig {
                 let r = self.rt.block_on(kk.update_key(key));
                 verif::trace::emit(json!({"e": "SetKey", "guid": st["guid"], "ok": r.is_ok()}));
             }
+            // KeySecret!UndeliveredReply: readers and a writer of the key that are dropped after their message was queued
+            // and before the actor answered (polled once, then dropped; repeated because the actor runs on another worker)
+            "cancel_key_calls" => {
+                let kk = self.shared.get_key_keeper_shared_state();
+                let n = st["n"].as_u64().unwrap_or(20);
+                let dropped = self.rt.block_on(async {
+                    let mut dropped = 0u64;
+                    let cur = kk.get_current_key_guid_and_value().await.unwrap_or(None);
+                    for _ in 0..n {
+                        macro_rules! once {
+                            ($fut:expr) => {{
+                                let fut = $fut;
+                                tokio::pin!(fut);
+                                tokio::select! { biased; _ = &mut fut => {}, _ = std::future::ready(()) => { dropped += 1; } }
+                            }};
+                        }
+                        once!(kk.get_current_key_guid_and_value());
+                        once!(kk.get_current_key_value());
+                        once!(kk.get_current_key_guid());
+                        once!(kk.get_current_key_incarnation());
+                        if let Some((guid, value)) = cur.clone() {
+                            let key: Key = serde_json::from_value(json!({
+                                "authorizationScheme": "Azure-HMAC-SHA256",
+                                "guid": guid, "issued": "2021-05-05T 12:00:00Z", "key": value, "incarnationId": 1
+                            }))
+                            .expect("key");
+                            once!(kk.update_key(key)); // the same key again: no change of state whether or not it is processed
+                        }
+                        tokio::time::sleep(Duration::from_millis(2)).await;
+                    }
+                    dropped
+                });
+                verif::trace::emit(json!({"e": "KeyCallsCancelled", "dropped": dropped}));
+            }
             "clear_key" => {
                 let kk = self.shared.get_key_keeper_shared_state();
                 let r = self.rt.block_on(kk.clear_key());
